@@ -50,7 +50,11 @@ func (e *Engine) instantiate(assumps []*Term, goal *Term, facts []*QFact) []*Ter
 		})
 		work = nil
 		for _, s := range sels {
-			for _, tg := range byArr[s.Args[0]] {
+			var tgs []trig
+			for _, a := range innerCandidates(s.Args[0], 0) {
+				tgs = append(tgs, byArr[a]...)
+			}
+			for _, tg := range tgs {
 				inst := s.Args[1]
 				if tg.t.Base != nil {
 					inst = c.Sub(inst, tg.t.Base)
@@ -72,6 +76,143 @@ func (e *Engine) instantiate(assumps []*Term, goal *Term, facts []*QFact) []*Ter
 				work = append(work, b)
 			}
 		}
+	}
+	return out
+}
+
+// propagateEqs: assumptions of the form (t == const) or (var == t) are used as rewrite rules on all
+// other assumptions and the goal (the defining equation itself is kept); region disequalities found
+// among the assumptions are made known to the simplifier while terms are rebuilt, so that
+// select-over-store chains resolve. Returns the substitution used.
+func (e *Engine) propagateEqs(assumps []*Term, goal *Term) ([]*Term, *Term, map[*Term]*Term) {
+	c := e.C
+	all := map[*Term]*Term{}
+	if c.localDistinct == nil {
+		c.localDistinct = map[[2]int]bool{}
+	}
+	for round := 0; round < 4; round++ {
+		sub := map[*Term]*Term{}
+		def := map[*Term][]*Term{} // assumption -> rule keys it defines
+		nd := 0
+		for _, a := range assumps {
+			if a.Op == ONot && a.Args[0].Op == OEq && a.Args[0].Args[0].S.K == SBV && a.Args[0].Args[0].S.W == RgnW {
+				x, y := a.Args[0].Args[0], a.Args[0].Args[1]
+				k := [2]int{x.ID, y.ID}
+				if !c.localDistinct[k] {
+					c.localDistinct[k] = true
+					c.localDistinct[[2]int{y.ID, x.ID}] = true
+					nd++
+				}
+				continue
+			}
+			// boolean unit propagation: an assumed literal rewrites its atom elsewhere
+			if a.Op != OOr && a.Op != OAnd && !a.IsConst() {
+				atom, val := a, c.True()
+				if a.Op == ONot {
+					atom, val = a.Args[0], c.False()
+				}
+				if _, dup := all[atom]; !dup && atom.Op != OVar {
+					if _, dup2 := sub[atom]; !dup2 {
+						sub[atom] = val
+						def[a] = append(def[a], atom)
+					}
+				}
+			}
+			if a.Op != OEq || a.Args[0].S.K != SBV {
+				continue
+			}
+			x, y := a.Args[0], a.Args[1]
+			// orient: replace x by y
+			switch {
+			case y.IsConst() && !x.IsConst():
+			case x.IsConst() && !y.IsConst():
+				x, y = y, x
+			case x.Op == OVar && y.Op == OVar:
+				if x.ID < y.ID {
+					x, y = y, x
+				}
+			case x.Op == OVar && !Mentions(y, map[*Term]bool{x: true}):
+			case y.Op == OVar && !Mentions(x, map[*Term]bool{y: true}):
+				x, y = y, x
+			default:
+				continue
+			}
+			if _, dup := all[x]; dup {
+				continue
+			}
+			if _, dup := sub[x]; dup {
+				continue
+			}
+			delete(sub, a) // the equation is used as a rewrite rule instead of a unit
+			def[a] = nil
+			// avoid cyclic rules within a round
+			cyc := false
+			for k := range sub {
+				if Mentions(y, map[*Term]bool{k: true}) {
+					cyc = true
+				}
+			}
+			if cyc {
+				continue
+			}
+			sub[x] = y
+			def[a] = append(def[a], x)
+		}
+		if len(sub) == 0 && nd == 0 {
+			break
+		}
+		var out []*Term
+		for _, a := range assumps {
+			use := sub
+			if keys, ok := def[a]; ok {
+				// a defining assumption is rewritten by all rules but its own
+				use = make(map[*Term]*Term, len(sub))
+				for k, v := range sub {
+					use[k] = v
+				}
+				for _, k := range keys {
+					delete(use, k)
+				}
+				delete(use, a)
+			}
+			n := c.Rebuild(a, use)
+			if n.IsTrue() {
+				continue
+			}
+			out = append(out, n)
+		}
+		assumps = out
+		if goal != nil {
+			goal = c.Rebuild(goal, sub)
+		}
+		for k, v := range sub {
+			all[k] = v
+		}
+	}
+	return assumps, goal, all
+}
+
+// innerCandidates: the inner-array terms a read through arr may hit: arr itself, the branches of an
+// ite, and — when arr is select(store-chain, r) with r not syntactically resolved — every inner array
+// stored in that chain (possible aliasing of regions).
+func innerCandidates(arr *Term, depth int) []*Term {
+	out := []*Term{arr}
+	if depth > 3 {
+		return out
+	}
+	switch arr.Op {
+	case OIte:
+		out = append(out, innerCandidates(arr.Args[1], depth+1)...)
+		out = append(out, innerCandidates(arr.Args[2], depth+1)...)
+	case OSelect:
+		h := arr.Args[0]
+		for h.Op == OStore {
+			out = append(out, innerCandidates(h.Args[2], depth+1)...)
+			h = h.Args[0]
+		}
+	case OStore:
+		// inner array with point updates: reads may fall through to the base
+		out = append(out, innerCandidates(arr.Args[0], depth+1)...)
 	}
 	return out
 }
@@ -132,6 +273,7 @@ func (e *Engine) Solve(o *Oblig, opts SolveOpts, stats *SolveStats, prep *sync.M
 	prep.Lock()
 	var script string
 	func() {
+		defer func() { e.C.localDistinct = nil }()
 		defer func() {
 			if r := recover(); r != nil {
 				o.Verdict = "unknown"
@@ -142,7 +284,25 @@ func (e *Engine) Solve(o *Oblig, opts SolveOpts, stats *SolveStats, prep *sync.M
 		assumps := o.Assumps
 		if !o.Cover {
 			goal = o.Goal
-			assumps = e.instantiate(o.Assumps, o.Goal, o.Facts)
+			var sub map[*Term]*Term
+			assumps, goal, sub = e.propagateEqs(assumps, goal)
+			facts := o.Facts
+			if len(sub) > 0 || len(e.C.localDistinct) > 0 {
+				facts = nil
+				for _, f := range o.Facts {
+					nf := &QFact{Bound: f.Bound, Body: e.C.Rebuild(f.Body, sub)}
+					for _, tg := range f.Trig {
+						nt := Trigger{Arr: e.C.Rebuild(tg.Arr, sub)}
+						if tg.Base != nil {
+							nt.Base = e.C.Rebuild(tg.Base, sub)
+						}
+						nf.Trig = append(nf.Trig, nt)
+					}
+					facts = append(facts, nf)
+				}
+			}
+			assumps = e.instantiate(assumps, goal, facts)
+			assumps, goal, _ = e.propagateEqs(assumps, goal)
 		}
 		hdr := fmt.Sprintf("; obligation %s\n; function %s\n; position %s\n; path %s\n", o.ID, o.Fn, o.Pos, o.Path)
 		var gv []*Term
